@@ -73,6 +73,16 @@ def run(pid, tier):
                 c = add_recharge(c, rnd)
             c['steps'] = steps
             c['only'] = ['search', 'search', 'rr']
+        if i % 20 in (6, 16):
+            # soft task order (tour-order objective, a per-solution count of violations) on a loose problem: operators that take
+            # jobs out without putting any back (redistribution, sequence exchange, whole-route ruin under a reached quota)
+            c = pgen.make_case(rnd.randrange(1 << 30), rnd.choice(['small', 'medium']), features={'order': True, 'softorder': True, 'objectives': True, 'unreachable': False, 'travel_only': False})
+            objs = c['problem'].get('objectives') or []
+            if {'type': 'tour-order'} in objs and i % 20 == 16:
+                # lowest priority: cost decides, so the tours do break the wished order and the count is not 0
+                objs.remove({'type': 'tour-order'}); objs.append({'type': 'tour-order'})
+            c['steps'] = steps
+            c['only'] = ['search', 'local', 'rr', 'rr']
         if i % 20 in (4, 14):
             # recharge stations (a distance budget per stretch) on most shifts of a small / medium problem
             from checks.solve_oracle import add_recharge
